@@ -547,7 +547,7 @@ func runBehaviour(j *judge, b *behaviour, check bool) int {
 			switch {
 			case err != nil:
 				rep.DriftNote("DiffTypeCheck error %v", err)
-			case equal && needs:
+			case equal && needs && b.Cfg.mixed() == "same-tuning": // differently tuned peers legitimately advertise different hashes
 				j.violate("C08", "typecheck/equal-contents-need-sync", fmt.Sprintf("two indexes with equal contents advertise different hashes (%s vs %s) after step %d", loc.Hash(), rem.Hash(), si+1), replay())
 			case !equal && !needs:
 				j.violate("C07", "typecheck/different-contents-in-sync", fmt.Sprintf("indexes with different contents advertise the same hash %s", loc.Hash()), replay())
